@@ -562,13 +562,19 @@ def gen_poly(r, g, depth=1, force_poly=None):
     params = []
     for _ in range(npar):
         b = r.choice(["C", "A"])
-        params.append(["L", ["T", b]] if r.random() < 0.45 else ["T", b])
+        if r.random() < 0.25:
+            # a parameter of any kind (unbounded / bounded nat, string, nested list / tuple, extension set);
+            # the body can only mention type and type-row parameters, the others stay unused
+            params.append(g.param(1))
+        else:
+            params.append(["L", ["T", b]] if r.random() < 0.45 else ["T", b])
+    usable = [i for i, p in enumerate(params) if p[0] == "T" or (p[0] == "L" and p[1][0] == "T")]
 
     def vrow(n):
         row = []
         for _ in range(r.randint(0, n)):
-            if params and r.random() < 0.6:
-                i = r.randrange(len(params))
+            if usable and r.random() < 0.6:
+                i = r.choice(usable)
                 p = params[i]
                 row.append(["rowvar", i, p[1][1]] if p[0] == "L" else ["var", i, p[1]])
             else:
@@ -578,9 +584,9 @@ def gen_poly(r, g, depth=1, force_poly=None):
     body = ["func", vrow(3), vrow(3), r.sample(REQS, r.choice([0, 0, 1]))]
     targs = []
     for p in params:
-        if p[0] == "T":
-            targs.append(g.arg_for(p, depth))
-        else:
+        if p[0] == "L" and p[1][0] == "T":
             targs.append(["seq", [g.arg_for(p[1], depth) for _ in range(r.choice([0, 1, 2, 3]))]])
+        else:
+            targs.append(g.arg_for(p, depth))
     inst = ["func", subst_row(body[1], targs), subst_row(body[2], targs), body[3]]
     return params, body, targs, inst
